@@ -34,7 +34,8 @@ def pick_params(rng, p):
     return rng.sample(PARAM_POOL, p)
 
 
-def rate_expr(rng, states, params, origin_states=None, stochastic=False, allow_time=True, popN=None):
+def rate_expr(rng, states, params, origin_states=None, stochastic=False, allow_time=True, popN=None,
+              sublinear=False):
     """A rate that is non-negative and bounded on non-negative bounded states."""
     par = lambda: rng.choice(params) if params else repr(round(rng.uniform(0.1, 2.0), 2))
     X = rng.choice(origin_states) if origin_states else rng.choice(states)
@@ -45,6 +46,8 @@ def rate_expr(rng, states, params, origin_states=None, stochastic=False, allow_t
         kinds.append("periodic")
     if origin_states and rng.random() < 0.85:
         kinds = [k for k in kinds if k not in ("const", "expx")]
+    if sublinear:       # an event that adds individuals must not grow faster than linearly (no blow-up)
+        kinds = [k for k in kinds if k not in ("mass", "massN")] or ["linear"]
     k = rng.choice(kinds)
     if k == "const":
         return par()
@@ -102,8 +105,9 @@ def gen_event(rng, states, params, stochastic=False, max_trans=3, symbolic_mag=F
             o = rng.choice(states)
             trans.append({"type": "D", "o": o, "mag": mag})
             origins.append(o)
+    grows = any(tr["type"] == "B" for tr in trans)
     rate = rate_expr(rng, states, params, origin_states=origins or None, stochastic=stochastic,
-                     allow_time=allow_time, popN=popN)
+                     allow_time=allow_time, popN=popN, sublinear=(stochastic and grows))
     return {"rate": rate, "trans": trans}
 
 
